@@ -362,7 +362,11 @@ func genC13(c *Ctx) {
 			continue
 		}
 		base := emitRun(msize, dotu, body, nil, nil, payloads, "wrap-whole")
-		for cut := win - int(msize); cut < win+int(msize) && cut < len(body) && !c.stop(); cut++ {
+		// the set-up requests (about 75 bytes) have already advanced the first array
+		for cut := win - 2*int(msize) - 90; cut < win+int(msize) && cut < len(body) && !c.stop(); cut++ {
+			if cut < 1 {
+				continue
+			}
 			emitRun(msize, dotu, body, []int{cut}, &base, payloads, "wrap-single")
 		}
 		for m := 0; m < 10; m++ {
@@ -395,11 +399,27 @@ func sortedMap(m map[uint16]string) []string {
 // genC13client: K concurrent Treads on a real Clnt; the scripted peer answers them all in
 // one reply stream cut at arbitrary points. Every call must get its own data.
 func genC13client(c *Ctx, i *int) {
-	for k := 0; k < c.scale(60, 1500) && !c.stop(); k++ {
+	// wrapCuts: two-write cuts around the end of the client's 8*msize receive buffer
+	var wrapCuts []int
+	nwrap := 0
+	for k := 0; k < c.scale(60, 1500)+c.scale(420, 3000) && !c.stop(); k++ {
 		*i++
 		r := c.rng(*i)
 		msize := []uint32{64, 100, 128, 512}[r.Intn(4)]
 		K := 1 + r.Intn(8)
+		wrap := k >= c.scale(60, 1500)
+		if wrap {
+			msize = 128
+			K = 24
+			if len(wrapCuts) == 0 {
+				for x := 6*128 + 64; x < 9*128; x += c.scale(2, 1) {
+					wrapCuts = append(wrapCuts, x)
+				}
+			}
+			if nwrap >= len(wrapCuts) {
+				break
+			}
+		}
 		line := fmt.Sprintf("cseg %d %d seed%d", msize, K, *i)
 		c.begin(line)
 		a, b := net.Pipe()
@@ -425,11 +445,19 @@ func genC13client(c *Ctx, i *int) {
 				off := binary.LittleEndian.Uint64(buf[11:])
 				tags = append(tags, tag)
 				fc := g.NewFcall(msize)
-				g.PackRread(fc, bytes.Repeat([]byte{byte(off)}, int(off%uint64(msize-24))+1))
+				g.PackRread(fc, cdata(off, msize, wrap))
 				g.SetTag(fc, tag)
 				stream = append(stream, fc.Pkt...)
 			}
 			var cuts []int
+			if wrap {
+				cuts = []int{wrapCuts[nwrap]}
+				nwrap++
+				for _, ch := range chunksOf(stream, cuts) {
+					b.Write(ch)
+				}
+				return
+			}
 			switch r.Intn(3) {
 			case 0:
 				for x := 1; x < len(stream); x++ {
@@ -460,7 +488,7 @@ func genC13client(c *Ctx, i *int) {
 					tc := clnt.NewFcall()
 					g.PackTread(tc, 5, off, 10)
 					rc, err := clnt.Rpc(tc)
-					want := bytes.Repeat([]byte{byte(off)}, int(off%uint64(msize-24))+1)
+					want := cdata(off, msize, wrap)
 					mu.Lock()
 					if err != nil {
 						bad = fmt.Sprintf("call %d: %v", n, err)
@@ -487,4 +515,14 @@ func genC13client(c *Ctx, i *int) {
 		}
 		c.emit(line, "ok", true)
 	}
+}
+
+// cdata is the payload the scripted peer returns for a Tread at this offset; in the wrap
+// runs replies are nearly msize long so that 24 of them run through the client's buffer.
+func cdata(off uint64, msize uint32, wrap bool) []byte {
+	n := int(off%uint64(msize-24)) + 1
+	if wrap {
+		n = int(msize) - 24 - 1 - int(off%7)
+	}
+	return bytes.Repeat([]byte{byte(off)}, n)
 }
